@@ -43,13 +43,12 @@ Definition dcheck (sn : dsnap) (starts stops : list N) (mac ip cid sid : N) : op
   else if smem ip (sn_qos sn) || smem ip (sn_qosi sn) || smem ip (sn_qost sn) then Some 2
   (* a cache entry answers for the session when it is keyed by its MAC or circuit-id, or when it names
      the session's MAC (circuit_id_map) or address (circuit_id_subscribers, VLAN map) under ANY key —
-     an entry left under a circuit-id the lease no longer records is such a dead binding; likewise the
-     slow path's circuit-ID index *)
+     an entry left under a circuit-id the lease no longer records is such a dead binding.  (The slow
+     path's circuit-ID index is not a fast-path cache: it is tied by the differential comparison only.) *)
   else if ahas mac (sn_cmac sn)
           || (negb (cid =? 0) && (ahas cid (sn_chash sn) || ahas cid (sn_csub sn)))
           || existsb (fun p => snd p =? mac) (sn_chash sn)
           || existsb (fun p => snd p =? ip) (sn_csub sn)
-          || existsb (fun p => fst (snd p) =? mac) (sn_bycid sn)
           || existsb (fun p => snd p =? ip) (sn_cvlan sn) then Some 3
   else if negb (sid =? 0) && (1 <=? count sid starts) && negb (count sid stops =? 1) then Some 4
   else None.
@@ -136,7 +135,7 @@ Definition paccept (st : pss) (o : pop) (r : pout) : pss + N :=
     end in
   let ended : option (list (N * N * bool)) :=
     match o with
-    | POverlap a b =>
+    | POverlap _ a b =>
         (* both paths are judged against the state before the overlap; a session both end is ended once *)
         match ended1 a, ended1 b with
         | Some l1, Some l2 => Some (l1 ++ filter (fun e => negb (existsb (fun f => fst (fst f) =? fst (fst e)) l1)) l2)
